@@ -146,8 +146,9 @@ class Program:
     def callees(self, path):
         return self.edges().get(path, [])
 
-    def reach(self, roots):
-        """Set of *local* body paths reachable from roots; also returns all (incl. foreign) callee names."""
+    def reach(self, roots, stop=None):
+        """Set of *local* body paths reachable from roots; also returns all (incl. foreign) callee names.
+        `stop(path)` -> True prunes the traversal at that body (it is not included)."""
         E = self.edges()
         seen = set()
         foreign = {}
@@ -155,6 +156,8 @@ class Program:
         while stack:
             p = stack.pop()
             if p in seen:
+                continue
+            if stop is not None and stop(p):
                 continue
             seen.add(p)
             for name, node in E.get(p, []):
@@ -182,6 +185,29 @@ class Program:
                 if name == target:
                     out.append((p, node))
         return out
+
+    # ------------------------------------------------------------------ standard regions
+    def concrete_view_bodies(self):
+        """Bodies of `impl Queryable for <concrete type>` and `impl JsonPath for <concrete>` (+ nested closures)."""
+        out = set()
+        for p, it in self.items.items():
+            if it.get("impl_trait") in ("crate::query::queryable::Queryable", "crate::JsonPath"):
+                st = it.get("impl_self") or ""
+                if st != "T":
+                    out.update(self.family(p))
+        return out
+
+    def evaluator(self):
+        """Reach({js_path_process}) without the concrete `impl Queryable for Value` side."""
+        conc = self.concrete_view_bodies()
+        root = self.find_fn("crate::query::js_path_process")
+        r, f = self.reach([root], stop=lambda p: p in conc)
+        return r, f
+
+    def parser_region(self):
+        root = self.find_fn("crate::parser::parse_json_path")
+        r, f = self.reach([root])
+        return r, f
 
     def public_entry_points(self):
         return sorted(p for p, it in self.items.items()
